@@ -23,6 +23,7 @@ package dependency // import "pault.ag/go/debian/dependency"
 import (
 	"errors"
 	"fmt"
+	"strings"
 )
 
 // Parse a string into a Dependency object. The input should look something
@@ -338,6 +339,7 @@ func parsePossibilityNumber(input *input, version *VersionRelation) error {
 		case 0:
 			return errors.New("Oh no. Reached EOF before Number finished")
 		case ')':
+			version.Number = strings.TrimRight(version.Number, " \t\r\n")
 			return nil
 		}
 		version.Number += string([]byte{input.Next()})
@@ -350,6 +352,7 @@ func parsePossibilityArchs(input *input, possi *Possibility) error {
 	input.Next() /* Assert ch == '[' */
 
 	for {
+		eatWhitespace(input) /* blanks before a name or the closing ']' */
 		peek := input.Peek()
 		switch peek {
 		case 0:
@@ -413,6 +416,7 @@ func parsePossibilityStageSet(input *input, possi *Possibility) error {
 
 	stageSet := StageSet{}
 	for {
+		eatWhitespace(input) /* blanks before a name or the closing '>' */
 		peek := input.Peek()
 		switch peek {
 		case 0:
